@@ -12,4 +12,5 @@ CONSTANT Tighten = 1
 INVARIANT LayoutValid
 INVARIANT CandidatesLegal
 INVARIANT Slack
+CONSTRAINT Frontier
 CHECK_DEADLOCK FALSE
